@@ -24,7 +24,7 @@ echo "demo with change:    $w"
 echo "demo without change: $wo"
 results=""
 for p in "$@"; do
-  r=$(/verif/tools/mutant_run.sh "$out/patch.diff" "$p" 2>&1 | grep -E "VIOLATION|exit=|INTERNAL" | head -3 | tr '\n' ' ')
+  r=$(/verif/tools/mutant_run.sh "$out/patch.diff" "$p" 2>&1 | grep -aE "VIOLATION|exit=|INTERNAL" | head -3 | tr '\n' ' ')
   echo "check $p: $r"
   results="$results $p:[$r]"
 done
